@@ -112,7 +112,10 @@ class Gen:
         x = r.random()
         if x < 0.08:
             self.feat.add("socket")
-            return ("$$" if group else "$") + self.ident()
+            gap = ""
+            if r.random() < 0.2:
+                gap = r.choice([" ", "\t", "  ", " " + self.comment() + self.nl() + " ", self.nl()]); self.feat.add("socket-blank")
+            return ("$$" if group else "$") + gap + self.ident()
         if x < 0.40 and self.names:
             return r.choice(self.names)
         if x < 0.85 and not group:
@@ -518,18 +521,25 @@ def hexnums(s):
     return [int(x, 16) for x in s.split(" ")] if s else []
 
 
-def check_rejected(b, e, model_out):
+def check_rejected(b, e, model_out, repaired=False):
     """clauses checked directly + comparison with the model; returns (problems, kf, cls)"""
     problems, kf = [], set()
     n = len(b)
-    flags = "00"
+    flags, fixed = "00", None
     m = model_out
     if "|" in m:
-        m, flags = m.split("|")
+        m, flags, fx = m.split("|")
+        fixed = tuple(hexnums(fx))
     mi, ml, mc, ma, mb = hexnums(m)
     got = (e["index"], e["line"], e["col"], e["a"], e["b"])
     if got != (mi, ml, mc, ma, mb):
-        problems.append(("model", "reported (index,line,column,range) = %s but the model of %s gives %s" % (got, e["origin"], (mi, ml, mc, ma, mb))))
+        # deviation switch of the two error-range findings: once their witnesses no longer fail, the implementation is
+        # compared with the repaired model (ErrRange.convert_pest_error_fixed) instead of the faithful one
+        if repaired and fixed is not None and got == fixed:
+            pass
+        else:
+            problems.append(("model", "reported (index,line,column,range) = %s but the model of %s gives %s%s" % (
+                got, e["origin"], (mi, ml, mc, ma, mb), (" (repaired model: %s)" % (fixed,)) if fixed and fixed != (mi, ml, mc, ma, mb) else "")))
     if not (0 <= e["a"] <= e["b"]):
         problems.append(("range-inverted", "range (%d,%d) is inverted" % (e["a"], e["b"])))
     if not (0 <= e["index"] <= n and e["b"] <= n):
@@ -565,7 +575,7 @@ def check_rejected(b, e, model_out):
         elif "is already defined" in e["msg"]:
             cls = e["origin"] + ":duplicate-rule(position_from_ast_span)"
         else:
-            cls = e["origin"] + ":" + re.sub(r"[:\"].*", "", e["msg"]).strip()[:40]
+            cls = e["origin"] + ":" + re.sub(r"(missing definition for rule|Invalid control operator|out of range).*", r"\1", re.sub(r"[:\"].*", "", e["msg"])).strip()[:50]
     return problems, kf, cls
 
 
@@ -582,7 +592,7 @@ def load_findings():
     return {k["id"]: k for k in kfs}
 
 
-def evaluate(drv, orc, texts):
+def evaluate(drv, orc, texts, repaired=False):
     """run driver + oracle on texts; returns list of dicts with problems / kf / class"""
     hexes = [t.encode("utf-8").hex() for t in texts]
     impl = common.run_tool(drv, ["P\t" + h for h in hexes])
@@ -629,10 +639,10 @@ def evaluate(drv, orc, texts):
             if (mo == "wf") != direct_ok:
                 rec["problems"].append(("events-wfb", "Coq events_wfb says %s but the direct nesting/order check says %s" % (mo, direct_ok)))
         elif what == "E":
-            pr, kf, cls = check_rejected(b, rec["err"], mo)
+            pr, kf, cls = check_rejected(b, rec["err"], mo, repaired)
             rec["problems"] += pr; rec["kf"] |= kf; rec["cls"] = cls
         elif what == "C":
-            pr, kf, cls = check_rejected(b, rec["checked"], mo)
+            pr, kf, cls = check_rejected(b, rec["checked"], mo, repaired)
             rec["problems"] += [(c, "from_slice/checked: " + d) for c, d in pr]; rec["kf"] |= kf; rec["checked_cls"] = cls
     return parsed, impl
 
@@ -643,7 +653,7 @@ def vm_expr(text, line):
         return "events_wf_render %s%%N %s" % (f[1], common.coq_list([int(x) for x in f[2].split(",")] if f[2] != "-" else []))
     bs = common.coq_list(list(bytes.fromhex(f[1])))
     if f[0] == "E":
-        return "err_render %s %s%%N" % (bs, f[2])
+        return "(err_render %s %s%%N ++ [124] ++ err_render_fixed %s %s%%N)%%list" % (bs, f[2], bs, f[2])
     if f[0] == "S":
         return "span_position_render %s %s%%N %s%%N" % (bs, f[2], f[3])
     if f[0] == "A":
@@ -665,65 +675,78 @@ def run(tier, seed):
     findings = load_findings()
 
     # 1. replay the witnesses of the open findings
+    still_open = set()
     for kid, kf in findings.items():
         w = kf["witness"]["text"]
-        recs, _ = evaluate(drv, orc, [w])
+        recs, _ = evaluate(drv, orc, [w], repaired=True)
         if kid in recs[0]["kf"]:
-            res.known(kf)
+            res.known(kf); still_open.add(kid)
+        elif recs[0]["problems"]:
+            for clause, desc in recs[0]["problems"]:
+                res.violation("witness %r of %s no longer shows the finding but fails clause '%s': %s" % (w, kid, clause, desc),
+                              {"text_hex": w.encode().hex(), "text": w, "clause": clause, "detail": desc, "impl": recs[0]["impl"][:2000]})
         else:
             res.notes.append("finding %s apparently repaired: witness %r -> %s" % (kid, w, recs[0]["impl"][:200]))
+    # the implementation is held to the repaired error-range model only when BOTH range findings are gone
+    repaired = not ({"kf-c15-range-end-in-char", "kf-c15-range-start-in-char"} & still_open)
+    if repaired:
+        res.notes.append("error-range findings repaired: implementation compared with ErrRange.convert_pest_error_fixed where it differs from the faithful model")
 
     # 2. generated documents
     cases = gen_cases(rng, n_docs, n_trunc)
-    texts = [c[1] for c in cases]
-    recs, impl = evaluate(drv, orc, texts)
     cls_hist, verdicts, kind_hist, defaults, err_classes, clause_hist, feat_hist = {}, {}, {}, {}, {}, {}, {}
     spans_checked, distinct, kf_counts = 0, set(), {}
     gen_verdicts = {"accepted": 0, "rejected": 0}
-    for (cls, t, feats), rec in zip(cases, recs):
-        cls_hist[cls] = cls_hist.get(cls, 0) + 1
-        verdicts[rec["verdict"]] = verdicts.get(rec["verdict"], 0) + 1
-        if cls == "generated":
-            gen_verdicts["accepted" if rec["verdict"] == "accepted" else "rejected"] += 1
-        for f in feats:
-            feat_hist[f] = feat_hist.get(f, 0) + 1
-        if rec["verdict"] == "accepted":
-            for nd in rec["nodes"]:
-                kind_hist[nd.kind] = kind_hist.get(nd.kind, 0) + 1
-            spans_checked += len(rec["nodes"])
-            for k, v in rec["defaults"].items():
-                defaults[k] = defaults.get(k, 0) + v
-            if "checked_cls" in rec:
-                c = "from_slice:" + rec["checked_cls"]
-                err_classes[c] = err_classes.get(c, 0) + 1
-        elif "cls" in rec:
-            err_classes[rec["cls"]] = err_classes.get(rec["cls"], 0) + 1
-        if len(t) > 4:
-            distinct.add(t)
-        for k in rec["kf"]:
-            kf_counts[k] = kf_counts.get(k, 0) + 1
-            if k in findings:
-                res.known(findings[k])
-            else:
-                res.violation("document %r shows the defect %s but no such open finding is listed" % (t[:120], k),
-                              {"text_hex": t.encode().hex(), "text": t, "impl": rec["impl"][:2000], "clause": k})
-        for clause, desc in rec["problems"]:
-            clause_hist[clause] = clause_hist.get(clause, 0) + 1
-            res.violation("C15 clause '%s' fails on %r: %s" % (clause, t[:120], desc),
-                          {"text_hex": t.encode().hex(), "text": t, "clause": clause, "detail": desc, "impl": rec["impl"][:2000],
-                           "model": rec.get("model")})
+    pool, samples = [], []
+    BATCH = 4000      # bounded memory: node records are dropped after each batch
+    for b0 in range(0, len(cases), BATCH):
+        batch = cases[b0:b0 + BATCH]
+        recs, impl = evaluate(drv, orc, [c[1] for c in batch], repaired)
+        if b0 == 0:
+            samples = [{"class": c[0], "text": c[1][:160], "impl": o[:300]} for c, o in list(zip(batch, impl))[len(SPECIAL):len(SPECIAL) + 6]]
+        for (cls, t, feats), rec in zip(batch, recs):
+            cls_hist[cls] = cls_hist.get(cls, 0) + 1
+            verdicts[rec["verdict"]] = verdicts.get(rec["verdict"], 0) + 1
+            if cls == "generated":
+                gen_verdicts["accepted" if rec["verdict"] == "accepted" else "rejected"] += 1
+            for f in feats:
+                feat_hist[f] = feat_hist.get(f, 0) + 1
+            if rec["verdict"] == "accepted":
+                for nd in rec["nodes"]:
+                    kind_hist[nd.kind] = kind_hist.get(nd.kind, 0) + 1
+                spans_checked += len(rec["nodes"])
+                for k, v in rec["defaults"].items():
+                    defaults[k] = defaults.get(k, 0) + v
+                if "checked_cls" in rec:
+                    c = "from_slice:" + rec["checked_cls"]
+                    err_classes[c] = err_classes.get(c, 0) + 1
+            elif "cls" in rec:
+                err_classes[rec["cls"]] = err_classes.get(rec["cls"], 0) + 1
+            if len(t) > 4:
+                distinct.add(t)
+            for k in rec["kf"]:
+                kf_counts[k] = kf_counts.get(k, 0) + 1
+                if k in findings:
+                    res.known(findings[k])
+                elif len(res.violations) < 200:
+                    res.violation("document %r shows the defect %s but no such open finding is listed" % (t[:120], k),
+                                  {"text_hex": t.encode().hex(), "text": t, "impl": rec["impl"][:2000], "clause": k})
+            for clause, desc in rec["problems"]:
+                clause_hist[clause] = clause_hist.get(clause, 0) + 1
+                if len(res.violations) < 200:
+                    res.violation("C15 clause '%s' fails on %r: %s" % (clause, t[:120], desc),
+                                  {"text_hex": t.encode().hex(), "text": t, "clause": clause, "detail": desc, "impl": rec["impl"][:2000],
+                                   "model": rec.get("model")})
+            # candidates for the vm_compute slice (guards extraction)
+            if len(pool) < 3000 and len(t.encode()) <= 90:
+                h = t.encode("utf-8").hex()
+                if rec["verdict"] == "accepted" and rec["nodes"]:
+                    pool.append("L\t%s\t%s" % (h, ",".join(str(nd.s) for nd in rec["line_nodes"]) or "-"))
+                elif rec["verdict"] == "rejected":
+                    pool.append(model_line_for_error(h, rec["err"]))
+        del recs, impl
 
-    # 3. vm_compute slice of the oracle requests (guards extraction)
-    hexes = [t.encode("utf-8").hex() for t in texts]
-    pool = []
-    for h, t, rec in zip(hexes, texts, recs):
-        if len(t.encode()) > 90:
-            continue
-        if rec["verdict"] == "accepted" and rec["nodes"]:
-            starts = [nd.s for nd in rec["line_nodes"]]
-            pool.append("L\t%s\t%s" % (h, ",".join(map(str, starts)) or "-"))
-        elif rec["verdict"] == "rejected":
-            pool.append(model_line_for_error(h, rec["err"]))
+    # 3. vm_compute slice of the oracle requests
     sl = rng.sample(pool, min(140, len(pool)))
     sl += ["E\t%s\t4" % "a = é".encode().hex(), "E\t%s\t9" % "a = ; é\n".encode().hex(), "W\t9\t0,0,3,8,8,15,19,19", "W\t9\t0,8,19,16,19,19"]
     vm = common.vm_compute_slice(PROP, VM_PREAMBLE, [vm_expr(None, l) for l in sl])
@@ -759,7 +782,7 @@ def run(tier, seed):
         "error_position_classes": dict(sorted(err_classes.items())),
         "known_finding_hits": kf_counts, "violated_clauses": clause_hist,
         "vm_compute_slice": len(sl),
-        "samples": [{"class": c[0], "text": c[1][:160], "impl": o[:300]} for c, o in list(zip(cases, impl))[len(SPECIAL):len(SPECIAL) + 6]],
+        "samples": samples,
     })
     res.assumptions = [
         "the input is valid UTF-8 (&str): characters are the non-continuation bytes; checked by the Python side decoding every text",
